@@ -20,7 +20,7 @@ META = {
     "exhaustive": {"quick": False, "thorough": False},
     "exhaustive_space": {"quick": "all histories of length <= 3 over 6 event kinds x 3 segmentations x 2 transports (callback subsets sampled)",
                          "thorough": "all histories of length <= 5 x 3 segmentations x 2 transports; all 2^7 callback subsets on a fixed rich history"},
-    "bounds": "on_cont_message mode: only names and payloads are judged (flags undocumented)",
+    "bounds": "on_cont_message mode: callback names, payloads, the continuation's final flag and arrival times are judged; text is cut on code-point boundaries there",
     "required_counters": ["callbacks_checked", "timing_checked", "tls_runs", "burst_runs"],
     "assumptions": [],
 }
@@ -136,8 +136,19 @@ def run(res, tier, seed, shard, nshards):
         for seg in ("per-frame", "burst"):
             for tls in (False, True):
                 jobs.append((rich, seg, tls, None, name))
+    # documented per-fragment mode (on_cont_message given)
+    cont_hists = [h for n in range(1, 4) for h in itertools.product(["text", "binary", "frag2", "frag3", "ping"], repeat=n)]
+    for hi, h in enumerate(cont_hists):
+        for seg in ("per-frame", "burst"):
+            for tls in (False, True):
+                if quick and (hi + tls) % 3:
+                    continue
+                jobs.append((h, seg, tls, "CONT-MODE", None))
     for ji, (h, seg, tls, sub, raising) in enumerate(jobs):
         if ji % nshards != shard:
+            continue
+        if sub == "CONT-MODE":
+            cont_mode_case(res, W, rng, h, seg, tls)
             continue
         if sub is None:
             # random subset of callbacks for breadth (always includes enough to observe something)
@@ -243,3 +254,105 @@ def one(res, W, rng, hist, seg, tls, enabled, raising_name):
 
 def _kind_of(e, evs):
     return e[1]
+
+
+def cont_mode_case(res, W, rng, hist, seg, tls):
+    """on_cont_message given: the first fragment of a message goes to on_data/on_message, every continuation
+    to on_data/on_cont_message (payload and final flag), in order, at arrival time.  Text is cut on code-point
+    boundaries only (the mode decodes fragments individually)."""
+    evs = []
+    for i, k in enumerate(hist):
+        if k == "text":
+            evs.append(dict(frames=[R.encode(R.TEXT, f"t{i}é".encode())], parts=[(R.TEXT, f"t{i}é".encode(), 1)]))
+        elif k == "binary":
+            evs.append(dict(frames=[R.encode(R.BINARY, b"B%d\xff" % i)], parts=[(R.BINARY, b"B%d\xff" % i, 1)]))
+        elif k == "frag2":
+            a, b = f"f{i}-é".encode(), "€!".encode()
+            evs.append(dict(frames=[R.encode(R.TEXT, a, fin=0), R.encode(R.CONT, b)], parts=[(R.TEXT, a, 0), (R.CONT, b, 1)]))
+        elif k == "frag3":
+            a, b, c = b"F%d" % i, b"", b"-xyz"
+            evs.append(dict(frames=[R.encode(R.BINARY, a, fin=0), R.encode(R.CONT, b, fin=0), R.encode(R.CONT, c)],
+                            parts=[(R.BINARY, a, 0), (R.CONT, b, 0), (R.CONT, c, 1)]))
+        else:
+            evs.append(dict(frames=[R.encode(R.PING, b"pi%d" % i)], ctl=("on_ping", b"pi%d" % i)))
+    # arrival times per frame
+    script, ftimes = [], []
+    if seg == "per-frame":
+        t = 1.0
+        for ev in evs:
+            for fr in ev["frames"]:
+                script.append((t, "frames", fr))
+                ftimes.append(t)
+                t += 0.25
+            t += 0.5
+        end = t + 1
+    else:
+        data = b"".join(fr for ev in evs for fr in ev["frames"])
+        script.append((1.0, "frames", data))
+        ftimes = [1.0] * sum(len(ev["frames"]) for ev in evs)
+        end = 40.0
+    script.append((end, "close", b""))
+    enabled = {"on_open", "on_message", "on_data", "on_cont_message", "on_ping", "on_error", "on_close"}
+    out = {}
+
+    def scen():
+        H.reset_process_state()
+        run = appsim.AppRun([dict(outcome="ok", script=script)], url="wss://app.test/" if tls else "ws://app.test/", callbacks=enabled)
+        out["run"] = run
+        run.run_forever()
+    S = sched.Sched(horizon=300, watchdog=60)
+    failure = None
+    try:
+        S.run(scen)
+    except sched.SimFailure as e:
+        failure = e
+    run = out.get("run")
+    case = {"history": hist, "segmentation": seg, "tls": tls, "mode": "on_cont_message"}
+    res.case(("cont", hist, seg, tls), nontrivial=True)
+    res.count("cont_mode_runs")
+
+    def bad(kind, detail, **kw):
+        res.violation(kind, f"on_cont_message mode {hist} seg={seg} tls={tls}: {detail}", case, segmentation=seg, tls=tls, mode="on_cont_message", **kw)
+    if failure is not None or run is None:
+        bad("no-return", str(failure))
+        return
+    exp = [(0.0, "on_open", None, None)]
+    fi = 0
+    for ev in evs:
+        if "ctl" in ev:
+            exp.append((ftimes[fi], "on_ping", ev["ctl"][1], None))
+            fi += 1
+            continue
+        for (op, payload, fin) in ev["parts"]:
+            t = ftimes[fi]
+            fi += 1
+            exp.append((t, "on_data", payload, None))
+            if op == R.CONT:
+                exp.append((t, "on_cont_message", payload, fin))
+            else:
+                exp.append((t, "on_message", payload, None))
+    obs = [(t, n, a) for (t, n, a, ci, ac) in run.trace if n != "on_close"]
+    if any(n == "on_error" for _, n, _ in obs):
+        e = [a[0] for _, n, a in obs if n == "on_error"][0]
+        bad("error-in-cont-mode", f"on_error({type(e).__name__}: {e})", error=type(e).__name__)
+        return
+    if len(obs) != len(exp):
+        bad("callback-count", f"{[n for _, n, _ in obs]} vs expected {[e[1] for e in exp]}")
+        return
+    for (ot, on, oa), (et, en, ep, efin) in zip(obs, exp):
+        if on != en:
+            bad("callback-order", f"expected {en}, got {on}; trace {[n for _, n, _ in obs]}", callback=en, got=on)
+            return
+        if ep is not None:
+            got = oa[0].encode("utf-8") if isinstance(oa[0], str) else bytes(oa[0])
+            if got != ep:
+                bad("callback-arguments", f"{en}: payload {got!r}, expected {ep!r}", callback=en, what="payload")
+                return
+        if en == "on_cont_message" and bool(oa[1]) != bool(efin):
+            bad("callback-arguments", f"on_cont_message final flag {oa[1]!r}, expected {efin}", callback=en, what="final-flag")
+            return
+        if abs(ot - et) > 1e-9:
+            bad("callback-late", f"{en}: bytes arrived at t={et}, callback at t={ot}", callback=en, delay_class="select-timeout" if ot - et >= 9 else "other")
+            return
+        res.count("callbacks_checked")
+        res.count("timing_checked")
